@@ -447,8 +447,14 @@ def check_C05(sc: dict, out, facts: Facts) -> list[dict]:
     # process backends: resting points of the simulation
     procs: dict[str, str] = {}     # entity -> phase: pre | run | other
     quiet = 0
+    clock_now = 0.0                # virtual time only advances at 'timeout' events
+    progress_clock = 0.0
     for idx, e in enumerate(out.events):
         k = e[0]
+        if k == 'clock':
+            clock_now = progress_clock = float(e[1])
+        if k in ('pstart', 'begin', 'end', 'qput', 'kill', 'pexit', 'complete'):
+            progress_clock = clock_now
         if k == 'pstart':
             procs[e[1]] = 'pre'
             quiet = 0
@@ -475,7 +481,11 @@ def check_C05(sc: dict, out, facts: Facts) -> list[dict]:
             break
         elif k == 'timeout':
             quiet += 1
-            if quiet >= 3 and all(p == 'run' for p in procs.values()):
+            if len(e) > 2 and isinstance(e[2], (int, float)):
+                clock_now = max(clock_now, float(e[2]))
+            # at rest: three polls of the coordinator without any change - or the same 1.5 virtual seconds
+            # passing without a change while the coordinator was not even polling
+            if (quiet >= 3 or clock_now - progress_clock >= 1.5) and all(p == 'run' for p in procs.values()):
                 per, ready = _ready_model(sc, ref, execute, load, completed)
                 per_cap, total = ref.capacity(per, limit)
                 rest_points += 1
